@@ -32,8 +32,8 @@ fcppt::random::distribution::parameters::uniform_real<FloatType>::convert_to(
     distribution const &_dist)
 {
   return uniform_real(
-      min(fcppt::random::distribution::decorated_value(_dist.a())),
-      sup(fcppt::random::distribution::decorated_value(_dist.b())));
+      min(fcppt::random::distribution::decorated_value<FloatType>(_dist.a())),
+      sup(fcppt::random::distribution::decorated_value<FloatType>(_dist.b())));
 }
 
 #endif
